@@ -290,13 +290,20 @@ pub mod proofs {
             }
         }
     }
+    /// 0 = either, 1 = nested operations are sends only, 2 = recvs only
+    static mut NESTED_KIND: u8 = 0;
     fn chan_interrupt(_kind: u8, _var: usize) {
         if !vshim::any_bool() {
             return;
         }
         vshim::consume_interrupt();
         let ch = unsafe { &*CH };
-        if vshim::any_bool() {
+        let k = unsafe { NESTED_KIND };
+        if k == 1 {
+            do_send(ch);
+        } else if k == 2 {
+            do_recv(ch);
+        } else if vshim::any_bool() {
             do_send(ch);
         } else {
             do_recv(ch);
@@ -351,8 +358,8 @@ pub mod proofs {
             // every value that was queued before, and every value whose send did not
             // report a full channel, has been obtained exactly once
             let mut t = 1;
-            while t < NTAG {
-                if t <= 5 && contains(F0, t as u16) && T::got[t] != 1 {
+            while t <= 5 {
+                if contains(F0, t as u16) && T::got[t] != 1 {
                     flag(E_DUP);
                 }
                 t += 1;
@@ -438,7 +445,7 @@ pub mod proofs {
     /// sends (tags 1..=queued).  With the channel on the stack CBMC folds most of
     /// the encoding, so these fit the quick tier; the nested operation and its
     /// position (and one spurious CAS failure) stay symbolic.
-    fn nest_concrete(queued: usize, outer_is_send: bool) {
+    fn nest_concrete(queued: usize, outer_is_send: bool, nested_kind: u8) {
         let ch: Channel<u8> = Channel::new();
         let mut i = 0;
         while i < 5 {
@@ -451,6 +458,7 @@ pub mod proofs {
             let (_, f) = chan::words(&ch);
             F0 = f;
             CH = &ch;
+            NESTED_KIND = nested_kind;
             vshim::HOOKS.interrupt = chan_interrupt;
             vshim::HOOKS.stuck = stuck;
         }
@@ -466,25 +474,31 @@ pub mod proofs {
         nest_finish(&ch, 0, before);
         core::mem::forget(ch);
     }
+    // outer operation / nested operation (a signal handler only ever sends)
     #[kani::proof]
-    #[kani::unwind(7)]
-    pub fn c08_q_nest_send_two_queued() {
-        nest_concrete(2, true);
+    #[kani::unwind(10)]
+    pub fn c08_q_send_in_send() {
+        nest_concrete(2, true, 1);
     }
     #[kani::proof]
-    #[kani::unwind(7)]
-    pub fn c08_q_nest_recv_two_queued() {
-        nest_concrete(2, false);
+    #[kani::unwind(10)]
+    pub fn c08_q_send_in_recv() {
+        nest_concrete(2, false, 1);
     }
     #[kani::proof]
-    #[kani::unwind(7)]
-    pub fn c08_q_nest_send_four_queued() {
-        nest_concrete(4, true);
+    #[kani::unwind(10)]
+    pub fn c08_q_send_in_send_last_slot() {
+        nest_concrete(4, true, 1);
     }
     #[kani::proof]
-    #[kani::unwind(7)]
-    pub fn c08_q_nest_recv_full() {
-        nest_concrete(5, false);
+    #[kani::unwind(10)]
+    pub fn c08_q_recv_in_recv() {
+        nest_concrete(2, false, 2);
+    }
+    #[kani::proof]
+    #[kani::unwind(10)]
+    pub fn c08_q_recv_in_send_full() {
+        nest_concrete(5, true, 2);
     }
 
     /// Channel::new() is an empty, well-formed channel.
